@@ -213,7 +213,7 @@ Conf(s, S, C, evs, l, fuel) ==
 
 ConfRun(t, r) ==
     LET S == StreamOf(t, r)
-        C == [filter |-> r.filter, quit |-> r.quit, parsing |-> (r.parsing = 1), zeroEof |-> FALSE, nmeaB2 |-> NmeaB2]
+        C == [filter |-> r.filter, quit |-> r.quit, parsing |-> (r.parsing = 1), zeroEof |-> FALSE, nmeaB2 |-> NmeaB2, sock |-> FALSE]
     IN Conf(InitState, S, C, r.events, 1, 8 * Len(S) + 32)
 
 \* first drifting run (only runs that logged their reads take part), "conf" if none
